@@ -251,6 +251,7 @@ class GeneralThermodynamics:
             self._drivingForce = self._getDrivingForceTangent
         else:
             raise Exception('Driving force method must be either \'approximate\', \'sampling\', \'tangent\' or \'curvature\'')
+        self._compset_cache_df = {}
 
     def setDFSamplingDensity(self, density):
         '''
